@@ -10,7 +10,7 @@ git -C /repo worktree add --detach $wt HEAD >/dev/null 2>&1 || { echo "worktree 
 export CARGO_NET_OFFLINE=true
 {
 echo "== base: $(git -C /repo rev-parse --short HEAD)"
-cd $wt
+cd $wt; mkdir -p $wt/target
 echo "== demo without change"; bash $dir/demo/run.sh $wt >/var/tmp/vxlogs/confirm-$seed.d0 2>&1; d0=$?; tail -3 /var/tmp/vxlogs/confirm-$seed.d0; echo "exit $d0"
 git checkout -q -- . ; git clean -fdq -e target
 echo "== apply"; git apply $dir/patch.diff; ap=$?; echo "exit $ap"
